@@ -274,7 +274,7 @@ pub fn check(case: &QCase, ctx: &mut Ctx) {
         if !for_this_address {
             foreign_quote_uploads += 1;
         }
-        let pc = Case { kind: st.kind, paid: true, prior: 0, rt_peers: 4, s: SFault::Ok, p: true, k: KFault::Ok, e: EFault::Ok, o: [true; 3], rpc: Rpc::Ok, a: true, own_pos: st.seed % 3, seed: st.seed.wrapping_add(i as u8 * 11) };
+        let pc = Case { kind: st.kind, paid: true, prior: 0, rt_peers: 4, s: SFault::Ok, p: true, k: KFault::Ok, e: EFault::Ok, o: [true; 3], rpc: Rpc::Ok, a: true, own_pos: st.seed % 3, seed: st.seed.wrapping_add(i as u8 * 11), prior_other_kind: false };
         let (mut proof, _h, _k) = build_proof(&pc, &mut cl, &pl);
         let Some(own_pos) = proof.peer_quotes.iter().position(|(p, _)| p.to_peer_id().ok() == Some(me_peer)) else {
             ctx.precondition_failed("own_quote_not_in_proof", String::new());
